@@ -101,7 +101,11 @@ def steps_for(start, hour, n, end_convention='next'):
     d, h = start, hour
     for i in range(n):
         ed, eh = add_hours(d, h, 1)
-        out.append((yyjjj(d), float(h), yyjjj(ed), float(eh)))
+        if end_convention == 'h24' and eh == 0 and ed != d:
+            # CAMx also stamps the end of the last hour of a day as hour 24 of that day
+            out.append((yyjjj(d), float(h), yyjjj(d), 24.0))
+        else:
+            out.append((yyjjj(d), float(h), yyjjj(ed), float(eh)))
         d, h = ed, eh
     return out
 
